@@ -832,6 +832,150 @@ func reachable(from, to, avoid *ssa.BasicBlock) bool {
 	return dfs(from)
 }
 
+// descFrame: a frame of f in which every call carries a structural description name(receiver; arguments) — for
+// straight-line extraction (the reply builders), no path sensitivity
+func (a *analyser) descFrame(f *ssa.Function) *frame {
+	fr := &frame{fn: f, sig: "", vals: map[ssa.Value]*sym{}, tuples: map[ssa.Value][]*sym{}, stack: map[*ssa.Function]bool{}}
+	for k, p := range f.Params {
+		fr.vals[p] = &sym{id: fmt.Sprintf("p%d", k), desc: fmt.Sprintf("p%d", k)}
+	}
+	for k, p := range f.FreeVars {
+		fr.vals[p] = &sym{id: fmt.Sprintf("free%d", k), desc: fmt.Sprintf("free%d", k)}
+	}
+	for _, b := range f.Blocks {
+		for _, ins := range b.Instrs {
+			ci, ok := ins.(*ssa.Call)
+			if !ok {
+				continue
+			}
+			c := ci.Common()
+			name := ""
+			var recv *sym
+			if c.IsInvoke() {
+				name = c.Method.Name()
+				recv = a.eval(fr, c.Value, nil, 0)
+			} else if g := c.StaticCallee(); g != nil {
+				name = g.Name()
+				if k := strings.Index(name, "["); k > 0 {
+					name = name[:k] // instantiation of a generic function
+				}
+				if g.Signature.Recv() != nil && len(c.Args) > 0 {
+					recv = a.eval(fr, c.Args[0], nil, 0)
+				}
+			}
+			var as []string
+			for k, x := range c.Args {
+				if !c.IsInvoke() && k == 0 && recv != nil {
+					continue
+				}
+				as = append(as, a.eval(fr, x, nil, 0).desc)
+			}
+			d := name + "("
+			if recv != nil {
+				d += recv.desc
+				if len(as) > 0 {
+					d += "; "
+				}
+			}
+			d += strings.Join(as, ", ") + ")"
+			fr.vals[ci] = &sym{id: d, desc: d}
+		}
+	}
+	return fr
+}
+
+type wireRow struct {
+	typ    string   // SubscriptionManagementEntryDataType | BindingManagementEntryDataType
+	fields []string // "Field<-desc", sorted, the element abbreviated to E
+	elem   string   // what E is: "literal-parameter" | "element-of-list" | "?"
+	list   []string // argument descriptions of the per-peer list calls in the enclosing top-level function
+}
+
+// wireReply: every construction site of a wire entry of the subscription / binding list in the module
+func (a *analyser) wireReply(all []*ssa.Function) []wireRow {
+	var rows []wireRow
+	for _, f := range all {
+		var fr *frame
+		sites := map[ssa.Value]map[string]string{} // struct address -> field -> desc
+		styp := map[ssa.Value]string{}
+		for _, b := range f.Blocks {
+			for _, ins := range b.Instrs {
+				st, ok := ins.(*ssa.Store)
+				if !ok {
+					continue
+				}
+				fa, ok := st.Addr.(*ssa.FieldAddr)
+				if !ok {
+					continue
+				}
+				pt, ok := fa.X.Type().Underlying().(*types.Pointer)
+				if !ok {
+					continue
+				}
+				named, ok := pt.Elem().(*types.Named)
+				if !ok || (named.Obj().Name() != "SubscriptionManagementEntryDataType" && named.Obj().Name() != "BindingManagementEntryDataType") {
+					continue
+				}
+				if fr == nil {
+					fr = a.descFrame(f)
+				}
+				if sites[fa.X] == nil {
+					sites[fa.X] = map[string]string{}
+				}
+				fld := fieldDesc(fa.X, fa.Field)
+				d := a.eval(fr, st.Val, nil, 0).desc
+				if old, dup := sites[fa.X][fld]; dup && old != d {
+					d = "?"
+				}
+				sites[fa.X][fld] = d
+				styp[fa.X] = named.Obj().Name()
+			}
+		}
+		for x, fields := range sites {
+			row := wireRow{typ: styp[x], elem: "?"}
+			// the element: what the id field is taken from
+			base := ""
+			for fld, d := range fields {
+				if strings.HasSuffix(fld, "Id") && strings.HasPrefix(d, "Ptr(") && strings.HasSuffix(d, ".Id)") {
+					base = d[len("Ptr(") : len(d)-len(".Id)")]
+				}
+			}
+			for fld, d := range fields {
+				if base != "" {
+					d = strings.ReplaceAll(d, base, "E")
+				}
+				row.fields = append(row.fields, fld+"<-"+d)
+			}
+			sort.Strings(row.fields)
+			switch {
+			case base == "":
+			case f.Parent() != nil && strings.HasPrefix(base, "p") && !strings.Contains(base, "."):
+				row.elem = "literal-parameter"
+			case strings.HasPrefix(base, "elem("):
+				row.elem = "element-of-list"
+			}
+			top := f
+			for top.Parent() != nil {
+				top = top.Parent()
+			}
+			tfr := a.descFrame(top)
+			for _, b := range top.Blocks {
+				for _, ins := range b.Instrs {
+					if ci, ok := ins.(*ssa.Call); ok && ci.Common().IsInvoke() && (ci.Common().Method.Name() == "Subscriptions" || ci.Common().Method.Name() == "Bindings") {
+						for _, x := range ci.Common().Args {
+							row.list = append(row.list, ci.Common().Method.Name()+"<-"+a.eval(tfr, x, nil, 0).desc)
+						}
+					}
+				}
+			}
+			sort.Strings(row.list)
+			rows = append(rows, row)
+		}
+	}
+	sort.Slice(rows, func(i, j int) bool { return fmt.Sprint(rows[i]) < fmt.Sprint(rows[j]) })
+	return rows
+}
+
 func main() {
 	out := flag.String("out", "", "output directory (lean/Spine/Generated)")
 	flag.Parse()
@@ -1031,6 +1175,22 @@ func main() {
 		os.Exit(1)
 	}
 	if err := os.WriteFile(filepath.Join(*out, "NotifyPaths.lean"), []byte(sb.String()), 0o644); err != nil {
+		fmt.Fprintln(os.Stderr, err)
+		os.Exit(1)
+	}
+	wr := a.wireReply(all)
+	var wb strings.Builder
+	wb.WriteString("/- GENERATED by go/notifypaths from the tree under test - do not edit.\n   Every construction site of an entry of the subscription / binding list sent over the wire: from which value each\n   field is taken (E = the element the id is taken from), what E is, and for which device the per-peer list is asked. -/\nnamespace Spine.Generated.WireReply\n\n")
+	wb.WriteString("structure Row where\n  typ : String\n  fields : List String\n  elem : String\n  list : List String\nderiving DecidableEq, Repr\n\ndef rows : List Row := [\n")
+	for i, r := range wr {
+		sep := ","
+		if i == len(wr)-1 {
+			sep = ""
+		}
+		fmt.Fprintf(&wb, "  ⟨%q, %s, %q, %s⟩%s\n", r.typ, qs(r.fields), r.elem, qs(r.list), sep)
+	}
+	wb.WriteString("]\n\nend Spine.Generated.WireReply\n")
+	if err := os.WriteFile(filepath.Join(*out, "WireReply.lean"), []byte(wb.String()), 0o644); err != nil {
 		fmt.Fprintln(os.Stderr, err)
 		os.Exit(1)
 	}
